@@ -56,7 +56,7 @@ func init() {
 		languageSweep(r, G, gs, []int{3}, thorough)
 		finishGraphStats(r, gs)
 		r.Set("rule", graphRule)
-		r.Set("exhaustive", true)
+		setExhaustiveUnlessCapped(r)
 		graphAssumptions(r)
 	})
 	register("C08", "model_checking", func(r *ev.Run, thorough bool) {
@@ -64,7 +64,7 @@ func init() {
 		languageSweep(r, G, gs, []int{2}, thorough)
 		finishGraphStats(r, gs)
 		r.Set("rule", graphRule)
-		r.Set("exhaustive", true)
+		setExhaustiveUnlessCapped(r)
 		graphAssumptions(r)
 	})
 	register("C11", "model_checking", func(r *ev.Run, thorough bool) {
@@ -73,7 +73,7 @@ func init() {
 		r.Phase("single-defect catalogue", func() { singleDefects(r, gs) })
 		finishGraphStats(r, gs)
 		r.Set("rule", graphRule+"; plus the single-defect catalogue: from each seed vector, for every metric and position one classified edit whose admissible set is a singleton by construction")
-		r.Set("exhaustive", true)
+		setExhaustiveUnlessCapped(r)
 		graphAssumptions(r)
 	})
 	register("C09", "model_checking", func(r *ev.Run, thorough bool) {
@@ -105,7 +105,7 @@ func init() {
 		r.Add("evaluations", r.Get("v3_environmental_product_vectors"))
 		r.Set("order_dependence_events", atomic.LoadInt64(&gs.orderEvents))
 		r.Set("rule", "at every accepting transition of the decoder graphs (see C07/C08), for every string of the permutation sets and for every vector of the ENUM D-paths: each exported field equals the library constant the harness associates with the written code (and prints that code), unwritten optional metrics are Not Defined (v3) / their group IsEmpty (v2), Ver matches the prefix; all paths reaching one token set give identical observables; explicit X equals omission")
-		r.Set("exhaustive", true)
+		setExhaustiveUnlessCapped(r)
 		graphAssumptions(r)
 		r.Assume("code -> library constant table written by hand from the constants' names (mc/internal/lib/enums.go), independent of the library's code maps")
 	})
@@ -136,7 +136,7 @@ func init() {
 		})
 		finishGraphStats(r, gs)
 		r.Set("rule", "at every accepting transition of the decoder graphs, for every permutation string and every ENUM D-path vector: Encode() succeeds and equals the canonical text computed by the reference encoder from the token set (v3: prefix, specification order, every temporal/environmental metric of the level spelled out; v2: exactly the groups present, byte-identical to the input), String()==Encode(), and decoding the encoding gives an object with identical observables")
-		r.Set("exhaustive", true)
+		setExhaustiveUnlessCapped(r)
 		graphAssumptions(r)
 	})
 	register("C12", "model_checking", func(r *ev.Run, thorough bool) {
@@ -147,7 +147,7 @@ func init() {
 		r.Phase("field reset", func() { fieldReset(r, thorough) })
 		finishGraphStats(r, gs)
 		r.Set("rule", graphRule+"; on every executed string: no panic, exactly one of object and error; at every new state the same string through a nil receiver; after every failed decode all observers on the receiver left behind (every abort point of every abort kind reached by the graphs) — no panic, and error/error/0 while a metric still holds its unknown value; fixed 1 MiB inputs; all observers on nil receivers and fresh constructor results; every exported field of decoded objects reset to its unknown/invalid value in turn")
-		r.Set("exhaustive", true)
+		setExhaustiveUnlessCapped(r)
 		graphAssumptions(r)
 	})
 }
@@ -381,4 +381,12 @@ func fieldReset(r *ev.Run, thorough bool) {
 		}
 	}
 	r.Add("field_reset_observations", n)
+}
+
+// setExhaustiveUnlessCapped marks the run exhaustive unless a graph search hit a cap.
+func setExhaustiveUnlessCapped(r *ev.Run) {
+	if v, ok := r.Cov["exhaustive"].(bool); ok && !v {
+		return
+	}
+	r.Set("exhaustive", true)
 }
